@@ -99,7 +99,7 @@ def nprocs() -> int:
     return max(1, min(16, n))
 
 
-def pmap(modname: str, fnname: str, jobs: list, *, chunksize: int | None = None):
+def pmap(modname: str, fnname: str, jobs: list, *, chunksize: int | None = None, fresh: bool = False):
     """Run fn(job) for every job on all cores; results in job order.  Any harness error or
     crash in a worker aborts the whole run with exit status 2 (never reported as a verdict)."""
     if not jobs:
@@ -112,8 +112,11 @@ def pmap(modname: str, fnname: str, jobs: list, *, chunksize: int | None = None)
         if chunksize is None:
             chunksize = max(1, min(64, len(jobs) // (procs * 8)))
         ctx = mp.get_context("fork")
-        with ctx.Pool(procs, initializer=_init_worker, initargs=(modname, fnname)) as pool:
-            raw = pool.map(_call, jobs, chunksize=chunksize)
+        # fresh: every job runs in a newly forked process, so that module-level state a job leaves
+        # behind (the code under test may have some) cannot leak into the next job
+        with ctx.Pool(procs, initializer=_init_worker, initargs=(modname, fnname),
+                      maxtasksperchild=1 if fresh else None) as pool:
+            raw = pool.map(_call, jobs, chunksize=1 if fresh else chunksize)
     out = []
     for status, val in raw:
         if status != "ok":
